@@ -261,12 +261,12 @@ def prove_eq(ctx, a: SBytes, b: SBytes, label, where=""):
     if len(a.segs) == len(b.segs) and all(_same_seg(s, t) for s, t in zip(a.segs, b.segs)):
         ctx.check(True, label + ".content", where)
         return ok
+    # Skolem index: the range is a premise of this obligation only (assuming it on the path
+    # would make the path condition unsatisfiable for empty strings)
     i = ctx.fresh_int("sk")
-    ctx.assume(i >= 0)
-    ctx.assume(i < zint(la))
     ta = at_term(ctx, a, i)
     tb = at_term(ctx, b, i)
-    ok2 = ctx.check(ta == tb, label + ".content", where)
+    ok2 = ctx.check(z3.Implies(z3.And(i >= 0, i < zint(la)), ta == tb), label + ".content", where)
     return ok and ok2
 
 
